@@ -1,6 +1,7 @@
 """C15: the watcher directory stays coherent; names unique ignoring case."""
 FUNCTIONS = [
     'circus.arbiter:Arbiter.add_watcher',
+    'circus.arbiter:Arbiter.rm_watcher',
     'circus.arbiter:Arbiter.get_watcher',
     'circus.arbiter:Arbiter.numwatchers',
     'circus.arbiter:Arbiter.statuses',
@@ -13,7 +14,19 @@ FUNCTIONS = [
     'circus.watcher:Watcher.status',
 ]
 LEMMAS = ['SAMESET']
-FRAMES = []
+FRAMES = [
+    {'name': 'directory-writers', 'kind': 'container_mutation', 'attr': '_watchers_names',
+     'what': 'the watcher directory dict is mutated only by __init__, initialize, add_watcher, rm_watcher, '
+             'reload_from_config',
+     'allowed': ['circus.arbiter:Arbiter.__init__', 'circus.arbiter:Arbiter.initialize',
+                 'circus.arbiter:Arbiter.add_watcher', 'circus.arbiter:Arbiter.rm_watcher',
+                 'circus.arbiter:Arbiter.reload_from_config']},
+    {'name': 'watchers-list-writers', 'kind': 'container_mutation', 'attr': 'watchers',
+     'what': 'the watcher list is mutated only by __init__, add_watcher, rm_watcher, reload_from_config',
+     'allowed': ['circus.arbiter:Arbiter.__init__', 'circus.arbiter:Arbiter.add_watcher',
+                 'circus.arbiter:Arbiter.rm_watcher', 'circus.arbiter:Arbiter.reload_from_config'],
+     'exclude_modules': ['circus.plugins', 'circus.stats', 'circus.circusctl']},
+]
 ASSUMPTIONS = ['A-PY', 'A-STR: str.lower is an uninterpreted idempotent function', 'A-TYPES',
                'A-NOSTRLIKE: opaque objects do not implement str/dict/list method names']
 TRUSTED = []
